@@ -50,7 +50,7 @@ def fc_real(m, n, safe):
         return 'ok', r
     except S.ForbiddenModule:
         return 'forbidden ' + pkl.enc_str(m + '.' + n), None
-    except ModuleNotFoundError:
+    except (ModuleNotFoundError, getattr(S, 'ModuleNotFoundError', ModuleNotFoundError)):      # deepdiff defines its own class of that name
         return 'modnotfound ' + pkl.enc_str(m + '.' + n), None
     except AttributeError:
         return 'attrerror ' + pkl.enc_str(m + '.' + n), None
